@@ -333,7 +333,8 @@ func (f *n3Fam) Exec(r *hx.Run, op []string) string {
 			cstates.GenRawStorageItem(neo3_state_manager.SerializeStringArray(strs)))
 		return "ok"
 	case "nmsg3":
-		if len(op) != 4 {
+		rootByte, okr := neoRootVariant(op, 4)
+		if !okr {
 			return "bad-op"
 		}
 		idx, err := strconv.ParseUint(op[1], 10, 32)
@@ -341,7 +342,7 @@ func (f *n3Fam) Exec(r *hx.Run, op []string) string {
 		if err != nil || !ok2 {
 			return "bad-op"
 		}
-		msg := &neo3.NeoCrossChainMsg{StateRoot: &mpt.StateRoot{Version: 0, Index: uint32(idx), RootHash: "0x" + strings.Repeat("22", 32)}}
+		msg := &neo3.NeoCrossChainMsg{StateRoot: &mpt.StateRoot{Version: 0, Index: uint32(idx), RootHash: "0x" + strings.Repeat(rootByte, 32)}}
 		unsigned, err := msg.GetMessage(n3Magic)
 		if err != nil {
 			panic(err)
@@ -471,6 +472,7 @@ func (f *n3Fam) genMsg(r *hx.Run) {
 			r.Nontrivial(fmt.Sprintf("%d/exact/other-script/%s", n, res))
 			res = r.Do(fmt.Sprintf("nmsg3 %d - -", idx+4))
 			r.Nontrivial(fmt.Sprintf("%d/empty/no-witness/%s", n, res))
+			neoAlteredReplays(r, "nmsg3", n, idx+10, m, ks, cons, neoDescOf(neoConsM(len(ks2)), ks2), sigs2)
 			if n > 1 {
 				perm := append([]int{}, ks...)
 				perm[0], perm[1] = perm[1], perm[0]
